@@ -94,9 +94,8 @@ def run(pid, tier, seed, replay):
         m["opts"] = [dict(o, start=st) for o in m["opts"] for st in ("", ids[-1])]
         fam.append(m)
     consts = {"NI": 1, "MaxCalls": 1, "MaxFails": 0, "MaxActs": 2}
-    ec.mc_run(chk, fam, consts, required=("MCNew", "MCActivate", "MCRestart", "MCSelect", "MCAssign"),
-              label="activation family")
-    hs = ec.hist_scenarios(chk, fam, consts, limit=1500 if quick else 20000)
+    _cov, hs = ec.mc_run(chk, fam, consts, required=("MCNew", "MCActivate", "MCRestart", "MCSelect", "MCAssign"),
+              label="activation family", hist_limit=1500 if quick else 20000)
     ec.run_validate(chk, hs, "activation: spec-behaviour replay", shards=4 if quick else 12, featurize=featurize)
     ec.run_validate(chk, [scenario(rng) for _ in range(1500 if quick else 25000)], "activation: random histories",
                     shards=4 if quick else 12, featurize=featurize)
